@@ -1,7 +1,7 @@
 """C16 - DelayedDestructor destroys late, once, and never under its own lock."""
 import re
 
-from ..engine import CALLS, CTORS, HELD, MAYBE, UNOWNED, callee_fq, path, unwrap
+from ..engine import is_lock_carrier, CALLS, CTORS, HELD, MAYBE, UNOWNED, callee_fq, path, unwrap
 from ..guards import check_guarded_fields, locks_of
 from ..blocking import classify_loops
 from .. import common
@@ -36,6 +36,7 @@ def run(ctx):
     ctx.step(select, ctx, DS)
     ctx.step(noexcept_rule, ctx)
     ctx.step(dtor_rule, ctx)
+    ctx.step(fresh_count, ctx)
     ctx.step(common.no_repeated_moves, ctx, "C16.moves",
              [f for f in ctx.fb.functions() if f.file.endswith("/DelayedDestructor.hpp")], floor=1)
     ctx.step(common.raii_only, ctx, "C16.raii", ["DelayedDestructor.hpp"], floor=10)
@@ -412,6 +413,60 @@ def noexcept_rule(ctx, rid="C16.noexcept"):
                         detail = "potentially throwing construction outside the try block at %s" % f.loc(st)
             ctx.ob(rid, ok, f.where, "every potentially throwing operation of destroyObjects() is inside its catch-all try",
                    detail, fn=f.label, inst=f.qname)
+
+
+def fresh_count(ctx, rid="C16.count"):
+    """what destroyObjects() reports is what is waiting when it returns: the callbacks and the destructors it ran with the
+    lock released may have handed over further objects, so a size read BEFORE that unlocked phase may only be returned
+    where the attempt to take the lock again has failed (the caller - the destructor's drain loop above all - otherwise
+    stops while objects are still pending)"""
+    ctx.rule(rid, "destroyObjects() does not return a count taken before its unlocked phase without trying to re-lock", floor=1)
+    n = 0
+    for f in ctx.fb.functions(rec=DD, name="destroyObjects"):
+        if f.params:
+            continue
+        n += 1
+        sized = {}      # local -> positions where it is assigned from ElementsToBeDestroyed.size()
+        for st in f.stmts.values():
+            tgt = src = None
+            if st["k"] == "BinaryOperator" and st.get("op") == "=":
+                tgt, src = f.children(st)
+            elif st["k"] == "DeclStmt":
+                for d in st["decls"]:
+                    if d.get("init"):
+                        e = f.s(d["init"])
+                        if any(x["k"] == "CXXMemberCallExpr" and (x.get("callee") or {}).get("name") == "size" and
+                               path(f, f.s(x.get("obj"))) == "this.ElementsToBeDestroyed" for x in f.descendants(e)) and f.pos_of(st):
+                            sized.setdefault("l:" + d["name"], []).append(tuple(f.pos_of(st)))
+                continue
+            if tgt is None:
+                continue
+            tp = path(f, tgt)
+            if tp and tp.startswith("l:") and f.pos_of(st) and any(
+                    x["k"] == "CXXMemberCallExpr" and (x.get("callee") or {}).get("name") == "size" and
+                    path(f, f.s(x.get("obj"))) == "this.ElementsToBeDestroyed" for x in f.descendants(src)):
+                sized.setdefault(tp, []).append(tuple(f.pos_of(st)))
+        unlocks = [tuple(f.pos_of(st)) for st in f.stmts.values() if st["k"] == "CXXMemberCallExpr" and f.pos_of(st) and
+                   (st.get("callee") or {}).get("name") == "unlock" and is_lock_carrier((f.s(st.get("obj")) or {}).get("t", ""))]
+        relocks = [tuple(f.pos_of(st)) for st in f.stmts.values() if st["k"] == "CXXMemberCallExpr" and f.pos_of(st) and
+                   (st.get("callee") or {}).get("name") in ("lock", "try_lock", "try_lock_for", "try_lock_until") and
+                   is_lock_carrier((f.s(st.get("obj")) or {}).get("t", ""))]
+        for r in [s for s in f.stmts.values() if s["k"] == "ReturnStmt" and f.children(s)]:
+            rp = f.pos_of(r)
+            v = path(f, f.children(r)[0])
+            if rp is None or v not in sized:
+                continue
+            stale = None
+            for a in sized[v]:
+                for u in unlocks:
+                    if f.reach_avoiding(a, u, [x for x in sized[v] if x != a]) and f.reach_avoiding(u, tuple(rp), relocks + [x for x in sized[v]]):
+                        stale = (a, u)
+            ctx.ob(rid, stale is None, f.loc(r), "the count returned here was read after the last unlocked phase (or the re-lock failed)",
+                   "" if stale is None else "%s was read from ElementsToBeDestroyed.size() before the lock was released for the callbacks and "
+                   "is returned without an attempt to take the lock again: objects handed over meanwhile are not counted" % v[2:],
+                   fn=f.label, inst=f.qname)
+    if n == 0:
+        ctx.broken("DelayedDestructor::destroyObjects() not found (anchor vanished)")
 
 
 def dtor_rule(ctx):
